@@ -45,6 +45,12 @@ pub trait Algebra: 'static + Debug + Clone {
     fn obs_len(_o: &Self::Obs) -> Option<usize> {
         None
     }
+    /// elements know their own position (the item stores it): trees are only built from slices / iterators and a point
+    /// assignment puts the right position into the element
+    fn positional() -> bool {
+        false
+    }
+    fn at(_e: &mut Self::Elem, _i: usize) {}
     fn fold(elems: &[Self::Elem]) -> Self::Obs {
         let mut o = Self::empty();
         for e in elems {
@@ -729,7 +735,7 @@ fn gen_num_pred<A: Algebra<Elem = i64, Obs = i64>>(rng: &mut Rng, shadow: &[i64]
             // aim the threshold at the aggregate of a random range so that both outcomes occur
             let l = rng.usize_below(shadow.len());
             let r = rng.range_usize(l, shadow.len() - 1);
-            let t = A::fold(&shadow[l..=r]) + rng.range_i64(-1, 1);
+            let t = A::fold(&shadow[l..=r]).saturating_add(rng.range_i64(-1, 1));
             match kind {
                 NumKind::Grows => NumPred::Ge(t),
                 NumKind::Shrinks => NumPred::Le(t),
@@ -837,5 +843,182 @@ where
     }
     fn obs_len(o: &Self::Obs) -> Option<usize> {
         A::obs_len(&o.0).or_else(|| B::obs_len(&o.1))
+    }
+}
+
+// ------------------------------------------------------------------------------------------------
+// built-in range-add items with sentinel elements: MinAdd over values that include T::MAX ("infinity") with
+// non-positive modifiers, MaxAdd over values that include T::MIN with non-negative modifiers - no overflow is possible,
+// and the neutral element of the merge occurs as a real element
+
+macro_rules! builtin_add_sentinel {
+    ($alg:ident, $item:ident, $t:ty, $name:expr, $empty:expr, $op:expr, $predkind:ident, $sentinel:expr, $modsign:expr) => {
+        #[derive(Debug, Clone)]
+        pub struct $alg;
+        impl Algebra for $alg {
+            type Item = $item<$t>;
+            type Mod = $t;
+            type Elem = i64;
+            type Obs = i64;
+            type Pred = NumPred;
+            fn name() -> String {
+                $name.into()
+            }
+            fn gen_elem(rng: &mut Rng, _nonneg: bool) -> i64 {
+                match rng.below(3) {
+                    0 => $sentinel as i64,
+                    _ => rng.range_i64(0, 40),
+                }
+            }
+            fn gen_mod(rng: &mut Rng, _nonneg: bool) -> $t {
+                (($modsign as i64) * rng.range_i64(0, 3)) as $t
+            }
+            fn leaf(e: &i64) -> Self::Item {
+                $item::new(*e as $t)
+            }
+            fn apply(e: &mut i64, m: &$t) {
+                *e += *m as i64;
+            }
+            fn empty() -> i64 {
+                $empty
+            }
+            fn extend(o: &mut i64, e: &i64) {
+                let f: fn(i64, i64) -> i64 = $op;
+                *o = f(*o, *e);
+            }
+            fn extend_left(o: &mut i64, e: &i64) {
+                Self::extend(o, e)
+            }
+            fn observe(i: &Self::Item) -> i64 {
+                i.v as i64
+            }
+            fn pending(i: &Self::Item) -> bool {
+                i.md != 0
+            }
+            fn gen_pred(rng: &mut Rng, shadow: &[i64]) -> NumPred {
+                gen_num_pred::<Self>(rng, shadow, NumKind::$predkind)
+            }
+            fn eval(p: &NumPred, o: &i64) -> bool {
+                eval_num(p, *o)
+            }
+        }
+    };
+}
+
+builtin_add_sentinel!(MinAddI64Sent, MinAdd, i64, "MinAdd<i64> with MAX elements", i64::MAX, |a, b| a.min(b), Shrinks, i64::MAX, -1);
+builtin_add_sentinel!(MaxAddI64Sent, MaxAdd, i64, "MaxAdd<i64> with MIN elements", i64::MIN, |a, b| a.max(b), Grows, i64::MIN, 1);
+builtin_add_sentinel!(MinAddI8Sent, MinAdd, i8, "MinAdd<i8> with MAX elements", i8::MAX as i64, |a, b| a.min(b), Shrinks, i8::MAX, -1);
+builtin_add_sentinel!(MaxAddI8Sent, MaxAdd, i8, "MaxAdd<i8> with MIN elements", i8::MIN as i64, |a, b| a.max(b), Grows, i8::MIN, 1);
+
+// ------------------------------------------------------------------------------------------------
+// ProgAdd: range add of an arithmetic progression over the global index. The element carries its own index, so the
+// modifier (a, d): x_i += a + d*i acts on each element individually; the node keeps its pending tag RELATIVE to its
+// first element, so pushing it down hands different tags to the left and to the right child (left: (A, d),
+// right: (A + d*len_left, d)). Any confusion of the two children inside the tree is visible.
+
+#[derive(Clone, Debug, Default)]
+pub struct PgItem {
+    pub sum: i64,
+    pub len: i64,
+    /// global index of the first element of this node
+    pub lo: i64,
+    /// pending for the children, relative to this node's first element
+    pub pend: Option<(i64, i64)>,
+}
+
+impl PgItem {
+    fn apply_rel(&mut self, a0: i64, d: i64) {
+        self.sum += a0 * self.len + d * (self.len * (self.len - 1) / 2);
+        self.pend = Some(match self.pend {
+            None => (a0, d),
+            Some((pa, pd)) => (pa + a0, pd + d),
+        });
+    }
+}
+
+impl SegtreeItem<(i64, i64)> for PgItem {
+    fn merge(l: &Self, r: &Self) -> Self {
+        PgItem { sum: l.sum + r.sum, len: l.len + r.len, lo: if l.len > 0 { l.lo } else { r.lo }, pend: None }
+    }
+    fn modify(&mut self, m: &(i64, i64)) {
+        // global (a, d) -> relative to this node
+        if self.len > 0 {
+            self.apply_rel(m.0 + m.1 * self.lo, m.1);
+        }
+    }
+    fn push(&mut self, left: &mut Self, right: &mut Self) {
+        if let Some((a0, d)) = self.pend.take() {
+            left.apply_rel(a0, d);
+            right.apply_rel(a0 + d * left.len, d);
+        }
+    }
+}
+
+#[derive(Debug, Clone)]
+pub struct ProgAdd;
+
+impl Algebra for ProgAdd {
+    type Item = PgItem;
+    type Mod = (i64, i64);
+    /// (global index, value)
+    type Elem = (i64, i64);
+    type Obs = (i64, i64);
+    type Pred = LenPred;
+    fn name() -> String {
+        "ProgAdd".into()
+    }
+    fn positional() -> bool {
+        true
+    }
+    fn at(e: &mut (i64, i64), i: usize) {
+        e.0 = i as i64;
+    }
+    fn gen_elem(rng: &mut Rng, _n: bool) -> (i64, i64) {
+        (0, rng.range_i64(-1000, 1000))
+    }
+    fn gen_mod(rng: &mut Rng, _n: bool) -> (i64, i64) {
+        match rng.below(4) {
+            0 => (rng.range_i64(-100, 100), 0),
+            1 => (0, rng.range_i64(-5, 5)),
+            _ => (rng.range_i64(-100, 100), rng.range_i64(-5, 5)),
+        }
+    }
+    fn leaf(e: &(i64, i64)) -> PgItem {
+        PgItem { sum: e.1, len: 1, lo: e.0, pend: None }
+    }
+    fn apply(e: &mut (i64, i64), m: &(i64, i64)) {
+        e.1 += m.0 + m.1 * e.0;
+    }
+    fn empty() -> (i64, i64) {
+        (0, 0)
+    }
+    fn extend(o: &mut (i64, i64), e: &(i64, i64)) {
+        o.0 += e.1;
+        o.1 += 1;
+    }
+    fn extend_left(o: &mut (i64, i64), e: &(i64, i64)) {
+        Self::extend(o, e)
+    }
+    fn observe(i: &PgItem) -> (i64, i64) {
+        (i.sum, i.len)
+    }
+    fn pending(i: &PgItem) -> bool {
+        matches!(i.pend, Some(p) if p != (0, 0))
+    }
+    fn gen_pred(rng: &mut Rng, shadow: &[(i64, i64)]) -> LenPred {
+        match rng.below(5) {
+            0 => LenPred::Always(true),
+            1 => LenPred::Always(false),
+            _ => LenPred::LenGe(rng.range_usize(1, shadow.len() + 1)),
+        }
+    }
+    fn eval(p: &LenPred, o: &(i64, i64)) -> bool {
+        match p {
+            LenPred::Always(b) => *b,
+            LenPred::LenGe(k) => o.1 as usize >= *k,
+        }
+    }
+    fn obs_len(o: &(i64, i64)) -> Option<usize> {
+        Some(o.1 as usize)
     }
 }
